@@ -200,6 +200,10 @@ func replayScript(v *Violation) string {
 			}
 			env := ""
 			for _, e := range st.Env {
+				if strings.HasPrefix(e, "VERIF_NOFILE=") {
+					b.WriteString("ulimit -n " + strings.TrimPrefix(e, "VERIF_NOFILE=") + " # for the next command (run the script in a sub-shell)\n")
+					continue
+				}
 				env += shQuoteEnv(e) + " "
 			}
 			if last && v.Inject != "" {
